@@ -135,19 +135,35 @@ def list_theorems(prop_module, namespace):
 
 
 def _run_shard(args):
+    """run one process over the lines; if it dies (crash, abort) or gives up on a request (TIMEOUT, exit 3),
+    keep what it printed, mark the offending request and resume after it"""
     binary, mode, lines = args
     cmd = [binary] + ([mode] if mode else [])
-    p = subprocess.run(cmd, input="\n".join(lines) + "\n", capture_output=True, text=True, env=ENV)
-    out = p.stdout.split("\n")
-    if out and out[-1] == "":
-        out.pop()
-    if len(out) != len(lines):
-        # a process died (abort / stack overflow): bisect to find the case
-        if len(lines) == 1:
-            return [f"CRASH rc={p.returncode}"]
-        mid = len(lines) // 2
-        return _run_shard((binary, mode, lines[:mid])) + _run_shard((binary, mode, lines[mid:]))
-    return out
+    results = []
+    rest = list(lines)
+    while rest:
+        try:
+            p = subprocess.run(cmd, input="\n".join(rest) + "\n", capture_output=True, text=True, env=ENV,
+                               timeout=120 + 0.2 * len(rest))
+            out = p.stdout.split("\n")
+            rc = p.returncode
+        except subprocess.TimeoutExpired as e:
+            out = (e.stdout.decode() if isinstance(e.stdout, bytes) else (e.stdout or "")).split("\n")
+            rc = -9
+        if out and out[-1] == "":
+            out.pop()
+        if len(out) >= len(rest):
+            results += out[:len(rest)]
+            break
+        # fewer answers than requests: `out` covers rest[:len(out)] (a TIMEOUT line answers its request)
+        k = len(out)
+        if out and out[-1].startswith("TIMEOUT"):
+            results += out
+            rest = rest[k:]
+        else:
+            results += out + [f"CRASH rc={rc}"]
+            rest = rest[k + 1:]
+    return results
 
 
 def run_lines(binary, mode, cases, shards=NCPU):
